@@ -119,6 +119,102 @@ R3 = "C09.S3.text-is-sliced-by-characters"
 R4 = "C09.S4.result-kind-follows-the-operand"
 R5 = "C09.S5.zero-step-is-the-only-slicing-error"
 R6 = "C09.S6.both-helpers-get-the-same-bounds"
+R7 = "C09.S7.omitted-bound-is-not-encoded-as-an-index"
+R8 = "C09.S8.unknown-length-is-not-taken-for-zero"
+
+
+def check_sentinels(ctx, prog, helpers_, tag):
+    """S7: inside the slicing helpers an omitted bound (`None`) must stay distinguishable from every explicit one.  The
+    contradiction that gives it away: a number that is a constant K exactly when the Option parameter is None, and
+    computed from the bound otherwise, is later *compared with K* - the comparison cannot tell `[::-1]` from an explicit
+    bound that happens to resolve to K (`[2:0:-1]` included element 0)."""
+    n = 0
+    for hp in helpers_:
+        h = prog.fn(hp)
+        for g in [h] + prog.closures_of(hp):
+            for sb in sorted(g.reachable):
+                if g.term(sb)["k"] != "switch":
+                    continue
+                cd = flow.cond_of(g, sb)
+                if cd.kind != "bin" or cd.rv["op"] not in ("Eq", "Ne"):
+                    continue
+                for a, b in ((cd.rv["a"], cd.rv["b"]), (cd.rv["b"], cd.rv["a"])):
+                    k = const_int(b)
+                    if k is None or "c" in a:
+                        continue
+                    n += 1
+                    os_ = flow.origins(g, a)
+                    consts = [o for o in os_ if o.kind == "const" and str(o.const.get("int")) == str(k) and o.bb is not None]
+                    others = [o for o in os_ if o.kind != "const"]
+                    from_none = False
+                    for o in consts:
+                        for gf in flow.guard_facts(prog, g, o.bb):
+                            if gf[0] == "stdvariant" and gf[1] == "core::option::Option" and set(gf[2]) <= {"0", "otherwise"} \
+                                    and "1" not in gf[2]:
+                                from_none = True
+                    ctx.ob(R7, "%s|%s==%s%s" % (short(g.path), "local", k, tag), not (consts and others and from_none),
+                           "a value that is %s exactly when a bound was omitted, and computed from the bound otherwise, is compared "
+                           "with %s: an explicit bound resolving to %s is taken for an omitted one" % (k, k, k), g.where(sb))
+    return n
+
+
+def backward_index_closures(prog):
+    """closures (by path) that map the indices produced by the backward helper - called with the length of a collected
+    operand - to elements: every index they are handed is below that length"""
+    out = set()
+    try:
+        class _C:
+            def need(self, c, m):
+                if not c:
+                    raise KeyError(m)
+        fwd, bwd = helpers(_C(), prog)
+    except KeyError:
+        return out
+    for g in prog.fns.values():
+        for c in g.calls():
+            if c.name != IT + "map" or len(c.args) < 2 or "c" in c.args[0]:
+                continue
+            recv = [o for o in flow.origins(g, c.args[0]) if o.kind == "call" and o.call.name == bwd]
+            if not recv:
+                continue
+            lens = [o for o in flow.origins(g, recv[0].call.args[3])]
+            if not lens or not all(o.kind == "call" and o.call.name.rsplit("::", 1)[-1] == "len" for o in lens):
+                continue
+            for o in flow.origins(g, c.args[1]):
+                if o.kind == "agg" and o.rv.get("closure"):
+                    from ..facts import norm_path
+                    out.add(norm_path(o.rv["closure"]))
+    return out
+
+
+def step_capture_is_tested(prog, g, op):
+    """inside a closure of a function with a zero-step test: does the operand come from the captured, tested step
+    (the closure is built on the non-zero side of the test)"""
+    root = prog.fns.get(g.root) if g.root else None
+    if root is None:
+        return False
+    class _C:
+        pass
+    zsb, skeys, zreg = step_keys(None, prog, root)
+    if zsb is None:
+        return False
+    sc = Scope(prog, root)
+    rs = sc.resolve(g, op)
+    if not rs or not all(okey(h, o) in skeys for (h, o) in rs):
+        return False
+    # the closure aggregate is built outside the error region of the test and after it
+    h = g
+    while h.kind == "closure" and h.parent and prog.fns.get(h.parent) is not root:
+        h = prog.fns.get(h.parent)
+        if h is None:
+            return False
+    for bb, i, st in root.all_stmts():
+        rv = st.get("rv")
+        if rv and rv["k"] == "agg" and rv.get("closure"):
+            from ..facts import norm_path
+            if norm_path(rv["closure"]) == h.path:
+                return bb not in zreg and cfg.dominates(root, zsb, bb)
+    return False
 
 
 def short(n):
@@ -336,5 +432,12 @@ def run(ctx):
                 reg_bb = c.bb if g is f else None
                 if c.name.startswith("core::option::Option::<T>::unwrap") and short(c.name) in ("unwrap", "expect") and g is not f:
                     ctx.ob(R5, "%s|unwrap%s" % (short(g.path), tag), False, "an unwrap inside a slicing closure can fail at run time", g.where(c.bb))
+        n7 = check_sentinels(ctx, prog, [fwd, bwd], tag)
+        ctx.count("C09 comparisons with a constant inside the helpers" + tag, n7)
         ctx.count("C09 functions in scope" + tag, len(sc.fns))
+    if not ctx.is_borrowed:
+        from . import c07 as _c07
+        prog = ctx.program("MAX")
+        b = ctx.borrowed("C07", "C09.S8:", only=lambda rule, inst: "V15" in rule and "value::ops::" in inst)
+        _c07.check_defaulted_lengths(b, prog, "")
     ctx.assume("std semantics of Iterator::skip / take / step_by / map; the arithmetic of the two helpers is not decided")
